@@ -7,6 +7,7 @@ package server
 
 import (
 	"context"
+	"fmt"
 	"os"
 	"testing"
 	"time"
@@ -14,6 +15,8 @@ import (
 	lift "github.com/liftbridge-io/go-liftbridge/v2"
 	client "github.com/liftbridge-io/liftbridge-api/v2/go"
 	"google.golang.org/grpc/status"
+
+	proto "github.com/liftbridge-io/liftbridge/server/protocol"
 )
 
 func TestLbvcScenarioGroupSubscribers(t *testing.T) {
@@ -109,5 +112,33 @@ func TestLbvcScenarioGroupSubscribers(t *testing.T) {
 	case <-s2a.Closed():
 	case <-time.After(2 * time.Second):
 		t.Fatalf("LBVC-REPRODUCED (obligation %s): the replaced subscription was not cancelled", os.Getenv("LBVC_OBLIGATION"))
+	}
+}
+
+// The expiry call-back of a member that has already left (the removal is then refused) must not crash.
+func TestLbvcScenarioExpiryAfterLeave(t *testing.T) {
+	g := newConsumerGroup("this-server", time.Hour, &proto.ConsumerGroup{Id: "g", Coordinator: "this-server", Epoch: 0}, false, noopLogger(),
+		func(string, string) error { return ErrConsumerNotMember }, func(string) int32 { return 2 })
+	defer g.Close()
+	if err := g.AddMember("a", []string{"s1"}, 1); err != nil {
+		t.Skip(err)
+	}
+	expired := g.consumerExpired("a") // the timer has fired ...
+	if _, err := g.RemoveMember("a", 2); err != nil { // ... but the leave is applied first
+		t.Skip(err)
+	}
+	var problem string
+	func() {
+		defer func() {
+			if r := recover(); r != nil {
+				problem = fmt.Sprintf("join(a), leave(a), then the expiry call-back of a runs and its removal is refused (not a member): the call-back panics: %v - on a timer goroutine this ends the process", r)
+			}
+		}()
+		expired()
+	}()
+	if problem != "" {
+		// the call-back died holding the group's lock: do not run the deferred Close
+		fmt.Printf("--- FAIL: LBVC-REPRODUCED (obligation %s): %s\n", os.Getenv("LBVC_OBLIGATION"), problem)
+		os.Exit(1)
 	}
 }
